@@ -54,6 +54,10 @@ func ioString(g *Gen, key bool) string {
 			sb.WriteString([]string{`\"`, `\\`, `\n`, `\t`, `\r`, `\\\"`, `\\\\`}[g.R.Intn(7)])
 		case k == 7:
 			sb.WriteString([]string{"é", "中", "😀"}[g.R.Intn(3)])
+			if g.R.Intn(6) == 0 {
+				// ill-formed UTF-8 (the stream decoders validate strings: replaced by U+FFFD)
+				sb.WriteString([]string{"\xff", "\xc0\x80", "\xed\xa0\x80", "\xe2\x82", "\x80", "\xf0\x9f\x98"}[g.R.Intn(6)])
+			}
 		default:
 			// characters that matter to the framing code when they sit inside a string
 			sb.WriteByte("[]{},: 1-"[g.R.Intn(9)])
@@ -312,9 +316,6 @@ func init() {
 			}
 			for k := 1 + g.R.Intn(3); k > 0; k-- {
 				p := g.R.Intn(len(b))
-				if b[p] >= 0x80 || (p+1 < len(b) && b[p+1] >= 0x80 && b[p+1] < 0xc0) {
-					continue // keep multi-byte characters whole (ill-formed UTF-8 is C20's subject)
-				}
 				switch g.R.Intn(3) {
 				case 0:
 					b[p] = alpha[g.R.Intn(len(alpha))]
@@ -379,6 +380,68 @@ func init() {
 				}
 			}
 			emit(strings.Join(steps, ","))
+		}
+	})
+	// option combinations x values with ill-formed UTF-8, HTML characters, U+2028/9: the bytes delivered
+	// must be the same configuration's Marshal (+ newline)
+	registerGen("c17.sinkopts", func(g *Gen) {
+		pieces := []string{"a", "xyz", "<", ">", "&", "<script>", "\u2028", "\u2029", "\xff", "\xc0\x80", "\xed\xa0\x80",
+			"\xe2\x82", "\xf0\x9f\x98", "\x80", "é", "中", "😀", "\"", "\\", "\n", "\x01", " ", "/"}
+		rawStr := func() string {
+			var sb strings.Builder
+			for k := g.R.Intn(6); k > 0; k-- {
+				sb.WriteString(pieces[g.R.Intn(len(pieces))])
+			}
+			if g.R.Intn(10) == 0 {
+				sb.WriteString(strings.Repeat("w", 20+g.R.Intn(60)) + pieces[g.R.Intn(len(pieces))])
+			}
+			return sb.String()
+		}
+		hx := func(s string) string {
+			if s == "" {
+				return ""
+			}
+			return hexArg([]byte(s))
+		}
+		for i := 0; i < g.N; i++ {
+			// every combination of h, v, u, n, and constructor / indent variants, in turn
+			o := ""
+			for b, l := range []string{"h", "v", "u", "n", "C", "i"} {
+				if (i>>uint(b))&1 == 1 {
+					o += l
+				}
+			}
+			if o == "" {
+				o = "-"
+			}
+			nv := 1 + g.R.Intn(3)
+			vals := make([]string, nv)
+			for k := range vals {
+				switch g.R.Intn(5) {
+				case 0, 1:
+					vals[k] = "S" + hx(rawStr())
+				case 2:
+					n := 1 + g.R.Intn(3)
+					xs := make([]string, n)
+					for j := range xs {
+						xs[j] = hx(rawStr())
+					}
+					vals[k] = "L" + strings.Join(xs, ".")
+				case 3:
+					vals[k] = "M" + hx(rawStr()) + "=" + hx(rawStr())
+				default:
+					if strings.Contains(o, "u") {
+						vals[k] = hexArg([]byte(ioString(g, false)))
+					} else {
+						vals[k] = hexArg([]byte(ioValue(g, 2)))
+					}
+				}
+			}
+			script := "-"
+			if g.R.Intn(6) == 0 {
+				script = []string{"f0", "ok,f2", "p1,ok", "f100000"}[g.R.Intn(4)]
+			}
+			g.Emit(append([]string{"sink", o, script}, vals...)...)
 		}
 	})
 }
